@@ -97,6 +97,7 @@ def oracle(ctx, seeds=None):
                              (n, ratio, a_, b_, z1, nc1, float(d[-1] / d[0]), float(np.sum(d))), dict(n=n, ratio=ratio, a=a_, b=b_))
     res.count('refined-whole-proportions', cnt)
     # ---- 2D meshes
+    previous = None
     for i in range(ctx.n(80, 1500)):
         nx, ny = int(rng.integers(1, 9)), int(rng.integers(1, 9)); lx, ly = float(rng.uniform(0.3, 4)), float(rng.uniform(0.3, 4))
         ok, msh = impl.guarded(impl.mesh2d.mesh2d, nx, ny, lx, ly)
@@ -135,6 +136,15 @@ def oracle(ctx, seeds=None):
             bad('disjoint', "boundary index tables overlap or exceed nbfaces")
         if set(msh.list_of_bctags()) != {'left', 'right', 'top', 'bottom'}:
             bad('tags', "tags %r" % (msh.list_of_bctags(),))
+        # a mesh built earlier is still the same mesh now that others exist
+        if previous is not None:
+            pm, pexp, pmd = previous
+            for tag in ('left', 'right', 'top', 'bottom'):
+                ok, idx = impl.guarded(pm.index_of_bc, tag)
+                if not ok or list(np.asarray(idx).astype(int)) != pexp[tag]:
+                    res.fail('2d:index-after-later-mesh:' + tag, "index_of_bc(%s) of a mesh %r built BEFORE another mesh %r is now %r, expected %r" %
+                             (tag, pmd, md, idx if not ok else list(np.asarray(idx)), pexp[tag]), dict(mesh2d=pmd, later=md)); break
+        previous = (msh, exp, md)
     return res
 
 
